@@ -729,6 +729,7 @@ fn c16_mxcsr() {
     want.mxcsr = f.bits();
     vp!(C16, only_changed(&want), "mxcsr::write did not store exactly the flags");
     vp!(C16, mxcsr::read() == f, "mxcsr::read after write does not return the flags");
+    vp!(C16, !m().opt_fault, "asm options promise no memory access (nomem / readonly) for stmxcsr / ldmxcsr, which write / read memory");
     kani::cover!(f.bits() != 0x1f80);
 }
 
@@ -743,6 +744,7 @@ fn c16_sgdt_sidt() {
     let i = crate::instructions::tables::sidt();
     let (il, ib) = ({ i.limit }, { i.base });
     vp!(C16, il == before.idtr_limit && ib.as_u64() == before.idtr_base, "sidt did not return IDTR");
+    vp!(C16, !m().opt_fault, "asm options promise no memory write (nomem / readonly) for sgdt / sidt, which store to memory");
     vp!(C16, only_changed(&before), "sgdt/sidt changed machine state");
     let p = crate::structures::DescriptorTablePointer { limit: kani::any(), base: any_virt() };
     let (pl, pb) = ({ p.limit }, { p.base });
